@@ -258,7 +258,7 @@ def check_case(case, tier):
             f2, info = CU.run_batch(case["cuda"], full["dense"], full["cusparse"])
             # C01 is about the right-hand side: Jacobian discrepancies of the batch belong to C02/C03
             failures += [(k, m) for k, m in f2 if "/jac/" not in k]
-            extra = {"cuda_cells_compared": info.get("cuda_cells_compared", 0)}
+            extra = dict(info)
     nontrivial = any(
         l in labels
         for l in ("repeated-reactant", "three-body", "catalyst", "pseudo-reactant", "duplicate-reaction", "thermal")
